@@ -56,7 +56,7 @@ Inductive case :=
 Definition check_case (c : case) : bool :=
   match c with
   | CSched flow cap replies sched expect sent =>
-    let g := mkCfg (if flow then Flow else Ring) (N.to_nat cap) false 7 (table_srv replies) true in
+    let g := mkCfg (if flow then Flow else Ring) (N.to_nat cap) false 7 (table_srv replies) in
     match prun g sched (p_init g) with
     | None => false
     | Some s =>
